@@ -724,6 +724,55 @@ def prove_on_peer_accepted(src_root, ex: Explorer):
 # ---------------------------------------------------------------------------
 # handlers reachable from on_message_received must not leak CancelledError (a BaseException) into the reader
 
+RESERVED_LOG_KEYS = {'name', 'msg', 'args', 'levelname', 'levelno', 'pathname', 'filename', 'module', 'exc_info', 'exc_text', 'stack_info', 'lineno',
+                     'funcName', 'created', 'msecs', 'relativeCreated', 'thread', 'threadName', 'processName', 'process', 'message', 'asctime', 'taskName'}
+
+
+def scan_logging(src_root, ex: Explorer, res):
+    """The extraction drops logging calls (they are assumed total and side-effect free).  This whole-tree scan discharges the one way a
+    logging call of this code base can raise regardless of the log level configuration of handlers: Logger.makeRecord raises KeyError
+    when `extra` carries a key that is a reserved LogRecord attribute.  Obligation: no literal key of an `extra=` dictionary (including
+    dictionaries spliced in with **{...}) is reserved; objects spliced in as **self.__dict__ must not define such an attribute."""
+    src, _ = source(src_root)
+    ctx = Ctx(ex, [])
+    bad = []
+    n = 0
+    for mod in src.modules.values():
+        attrs_by_class = {}
+        for c in [x for x in ast.walk(mod.tree) if isinstance(x, ast.ClassDef)]:
+            names = set()
+            for sub in ast.walk(c):
+                if isinstance(sub, ast.Attribute) and isinstance(sub.value, ast.Name) and sub.value.id == 'self' and isinstance(sub.ctx, ast.Store):
+                    names.add(sub.attr)
+            attrs_by_class[c.name] = names
+        for call in [x for x in ast.walk(mod.tree) if isinstance(x, ast.Call)]:
+            for kw in call.keywords:
+                if kw.arg != 'extra':
+                    continue
+                n += 1
+
+                def keys(d):
+                    out = []
+                    if isinstance(d, ast.Dict):
+                        for k, v in zip(d.keys, d.values):
+                            if k is None:
+                                out += keys(v)
+                            elif isinstance(k, ast.Constant):
+                                out.append(k.value)
+                    return out
+                for k in keys(kw.value):
+                    if k in RESERVED_LOG_KEYS:
+                        bad.append(f'{mod.name}:{call.lineno} extra key {k!r}')
+        for cname, names in attrs_by_class.items():
+            hit = names & RESERVED_LOG_KEYS
+            uses = any(isinstance(x, ast.keyword) and x.arg == 'extra' and 'self.__dict__' in ast.unparse(x.value) for c in ast.walk(mod.tree)
+                       if isinstance(c, ast.ClassDef) and c.name == cname for x in ast.walk(c))
+            if hit and uses:
+                bad.append(f'{mod.name}:{cname} logs extra=self.__dict__ and defines {sorted(hit)}')
+    ctx.prove('C02.logging.extra-keys', not bad and n > 0, f'a logging call can raise KeyError in makeRecord (it runs inside the reader task): {bad[:4]}')
+    res.functions.add('whole tree: logging calls with extra= (scan)')
+
+
 def scan_handlers(src_root, ex: Explorer, res):
     """Obligation C02.handler.<Class>.<method>.no-cancel-escape#k: in code executed by the reader's activation
     (an @on_message handler or a MessageReceivedEvent listener and the methods it awaits / calls on self),
@@ -852,6 +901,7 @@ def run_item(src_root, item, tier):
              'loop': prove_reader_loop, 'accepted': prove_on_peer_accepted, 'receive-object': prove_receive_message_object}[arg](src_root, ex)
         elif kind == 'handlers':
             scan_handlers(src_root, ex, res)
+            scan_logging(src_root, ex, res)
     except Unsupported as e:
         res.errors.append(f'{kind}:{arg}: unsupported: {e}')
     # obligations emitted by the shared obfuscation loop contracts are C02's here
